@@ -39,4 +39,41 @@ mod kani_probe {
     unit!(u_read_eval_t_8, 9, 11, |p| p.read_eval(true));
     unit!(u_read_vardef_8, 9, 11, |p| p.read_vardef());
     unit!(u_read_build_8, 9, 11, |p| p.read_build());
+
+    macro_rules! unit_ofs {
+        ($name:ident, $m:expr, $unw:expr, |$p:ident| $body:expr) => {
+            #[kani::proof]
+            #[kani::unwind($unw)]
+            #[kani::stub(std::fmt::format, fmt_stub)]
+            fn $name() {
+                let buf = sym_buf::<$m>();
+                let mut $p = Parser::new(&buf);
+                let ofs: usize = kani::any();
+                kani::assume(ofs < $m);
+                $p.scanner.ofs = ofs;
+                $p.scanner.line = kani::any();
+                kani::assume($p.scanner.line >= 1 && $p.scanner.line < 1000);
+                let r = $body;
+                if r.is_ok() {
+                    assert!($p.scanner.ofs < $m);
+                }
+                kani::cover!(r.is_ok());
+                std::mem::forget(r);
+            }
+        };
+    }
+    unit_ofs!(o_read_escape_8, 9, 11, |p| p.read_escape());
+    unit_ofs!(o_read_ident_8, 9, 11, |p| p.read_ident());
+    unit_ofs!(o_skip_comment_8, 9, 11, |p| p.skip_comment());
+    #[kani::proof]
+    #[kani::unwind(11)]
+    fn o_skip_spaces_8() {
+        let buf = sym_buf::<9>();
+        let mut p = Parser::new(&buf);
+        let ofs: usize = kani::any();
+        kani::assume(ofs < 9);
+        p.scanner.ofs = ofs;
+        p.skip_spaces();
+        assert!(p.scanner.ofs < 9);
+    }
 }
